@@ -174,6 +174,7 @@ class EValue(PyEcoreValue):
         else:
             # the new partner is taken away from its previous partner
             if opposite is not None and opposite is not owner:
+                opposite.__getattribute__(efeature._name)  # Force load
                 opposite.__dict__[efeature._name] \
                         .remove_or_unset(value, update_opposite=False)
             value.__dict__[opposite_name]._set(owner, update_opposite=False)
